@@ -103,6 +103,10 @@ Definition wop_eqb (a b : wop) : bool :=
   | WVar w x, WVar u y => (w =? u) && (x =? y)
   | WFixed k x, WFixed j y => Nat.eqb k j && (x =? y)
   | WBytes x, WBytes y => leqb x y
+  (* a named alias of an 8-bit type is written by the generated Write<Alias> function, which takes the memcpy path
+     (WriteBytes of one byte) where the resolved type is written with WriteByte: the same byte through either call
+     (Proofs.CodedCppOut treats both), so the comparison identifies them *)
+  | WByte x, WBytes [y] | WBytes [y], WByte x => x =? y
   | WFlush, WFlush => true
   | _, _ => false
   end.
